@@ -78,7 +78,22 @@ def collinear_strategy(draw, tier):
     unit = draw(st.sampled_from([1.0, 1.0, 1.0, 1.0, 0.001, 0.01, 100.0]))
     if unit != 1.0:
         c = [0.0, 0.0, 0.0]  # float32 storage: keep the relative precision of small coordinates
-    return {"pos": [p * unit for p in pos], "r": [r * unit for r in rad], "parents": par, "axis": axis, "c": c, "level": lv,
+    far = draw(st.sampled_from([None, None, None, None, 40000.0, 65536.0, -49152.0]))
+    if far is not None and unit == 1.0:
+        # a neuron in stack / atlas coordinates, tens of thousands of units from the origin: laid along a coordinate axis at
+        # positions that are multiples of 1/64 (rounded up, so every compartment stays at least as long as its radii), so
+        # that float32 storage holds every coordinate exactly
+        import math as _m
+
+        k = draw(st.integers(0, 5))
+        axis = [0, 0, 0]
+        axis[k % 3] = 1 if k < 3 else -1
+        c = [far * draw(st.sampled_from([1, 1, 0, -1])) for _ in range(3)]
+        c[k % 3] = far
+        pos = [_m.copysign(_m.ceil(abs(p) * 64) / 64, p) for p in pos]
+    else:
+        far = None
+    return {"far": far, "pos": [p * unit for p in pos], "r": [r * unit for r in rad], "parents": par, "axis": axis, "c": c, "level": lv,
             "two": two, "feature": draw(st.integers(0, 5)) == 0 and not two, "unit": unit}
 
 
@@ -120,6 +135,8 @@ def run_collinear(case, ctx):
     if any(r == 0 for r in R):
         ctx.cls("collinear:zero-radius-node")
     ctx.cls(f"unit:{case.get('unit', 1.0)}")
+    if case.get("far") is not None:
+        ctx.cls("far-from-the-origin")
     ctx.cls("two-arm" if case["two"] else "chain", f"level:{lv}", "overlapping-neighbours" if n_overlap else "all-apart",
             "mc-term" if case["two"] and lv >= 5 else "analytic-only")
     ctx.nontrivial(n >= 3 and overlap_unequal)
@@ -233,7 +250,7 @@ def run_levels12(case, ctx):
 
 SUBCHECKS = [
     Sub("collinear", collinear_strategy, run_collinear, quick=700, thorough=8000, shards_quick=8,
-        required={"chain": 200, "two-arm": 80, "overlapping-neighbours": 200, "all-apart": 20, "mc-term": 5,
+        required={"chain": 200, "far-from-the-origin": 100, "two-arm": 80, "overlapping-neighbours": 200, "all-apart": 20, "mc-term": 5,
                   "level:3": 30, "level:9": 10, "via-extract_feature": 20, "unit:0.001": 40, "unit:100.0": 40}),
     Sub("levels12", levels12_strategy, run_levels12, quick=800, thorough=10000, shards_quick=2,
         required={"furcations>=2": 100, "single-node": 5, "zero-radius-node-with-children": 40,
